@@ -1,6 +1,6 @@
 SPECIFICATION Spec
 CONSTANTS
-  Cats = {2}
+  Cats = {0, 2}
   Types = {1}
   Langs = {0, 3}
   Names = {0, 2}
@@ -8,8 +8,8 @@ CONSTANTS
   FTypes = {1}
   Vars = {1}
   Vals = {1}
-  MaxIds = 3
-  MaxFeats = 1
+  MaxIds = 2
+  MaxFeats = 0
   MaxFields = 0
   MaxVals = 1
   EmitMin = 0
